@@ -2,6 +2,7 @@ package props
 
 import (
 	"fmt"
+	"go/constant"
 	"go/token"
 	"go/types"
 	"sort"
@@ -647,6 +648,86 @@ func checkTokenIDUses(c *Ctx, p *core.Prog) {
 		}
 	}
 	c.R.RequireMin("R04.10", "conversions between token ids and runes", nConv, 2)
+	// ... and the step is exact: read as tables (constant propagation, engine E7b) at the boundaries of the range, the
+	// id -> rune function never yields a surrogate, is strictly increasing, and the rune -> id function takes every rune
+	// back to its id
+	{
+		var fwd, back *ssa.Function
+		for _, fn := range p.SrcFuncs(v2pkg) {
+			if core.FuncPkgPath(fn) != v2pkg || len(fn.Params) != 1 || fn.Signature.Results().Len() != 1 {
+				continue
+			}
+			isRune := func(t types.Type) bool {
+				bt, ok := t.Underlying().(*types.Basic)
+				return ok && bt.Kind() == types.Int32
+			}
+			switch {
+			case isTID(fn.Params[0].Type()) && isRune(fn.Signature.Results().At(0).Type()):
+				fwd = fn
+			case isRune(fn.Params[0].Type()) && isTID(fn.Signature.Results().At(0).Type()):
+				back = fn
+			}
+		}
+		if fwd != nil && back != nil {
+			ce := eng.NewConstEvaluator()
+			points := []int64{0, 1, 0xD7FE, 0xD7FF, 0xD800, 0xD801, 0xDFFE, 0xDFFF, 0xE000, 0xE001, 0xFFFF, 0x10000, 0x10001}
+			bad, undec := "", ""
+			prev := int64(-1)
+			for _, id := range points {
+				res, err := ce.Eval(fwd, []constant.Value{constant.MakeInt64(id)})
+				if err != nil || len(res) != 1 {
+					undec = fmt.Sprintf("%s(%#x) is not a constant of its argument", fwd.Name(), id)
+					break
+				}
+				r, _ := constant.Int64Val(res[0])
+				switch {
+				case r >= 0xD800 && r <= 0xDFFF:
+					bad = fmt.Sprintf("%s(%#x) = %#x is a surrogate code point: go-diff's string conversion turns it into U+FFFD, the id is lost", fwd.Name(), id, r)
+				case r <= prev:
+					bad = fmt.Sprintf("%s is not strictly increasing at %#x (%#x after %#x): two ids share a rune", fwd.Name(), id, r, prev)
+				}
+				prev = r
+				res2, err := ce.Eval(back, []constant.Value{constant.MakeInt64(r)})
+				if err != nil || len(res2) != 1 {
+					undec = fmt.Sprintf("%s(%#x) is not a constant of its argument", back.Name(), r)
+					break
+				}
+				if id2, _ := constant.Int64Val(res2[0]); id2 != id && bad == "" {
+					bad = fmt.Sprintf("%s(%s(%#x)) = %#x: the word recovered from the diff is another word", back.Name(), fwd.Name(), id, id2)
+				}
+			}
+			if undec == "" {
+				// the alphabet is finite: an id whose rune would lie above U+10FFFF cannot travel through a string either
+				okTop, whyTop := true, ""
+				if res, err := ce.Eval(fwd, []constant.Value{constant.MakeInt64(0x10F800)}); err == nil && len(res) == 1 {
+					if r, _ := constant.Int64Val(res[0]); r > 0x10FFFF {
+						guarded := false
+						for _, b := range fwd.Blocks {
+							for _, in := range b.Instrs {
+								if bo, ok := in.(*ssa.BinOp); ok {
+									for _, v := range []ssa.Value{bo.X, bo.Y} {
+										if k, isK := core.ConstInt(v); isK && k >= 0x10F7FF && k <= 0x110000 {
+											guarded = true
+										}
+									}
+								}
+							}
+						}
+						if !guarded {
+							okTop, whyTop = false, fmt.Sprintf("%s(0x10f800) = %#x lies above the largest code point and nothing in %s refuses it: from the 1,112,065th distinct word on every id becomes U+FFFD in go-diff's string conversion, all such words compare equal", fwd.Name(), r, fwd.Name())
+						}
+					}
+				}
+				c.R.Check(okTop, "R04.10", "token ids beyond the size of the rune alphabet are refused, not converted", p.Pos(fwd.Pos()), "the conversion is bounded", whyTop)
+			}
+			if undec != "" {
+				c.R.Info("R04.10", "id <-> rune conversion tables", p.Pos(fwd.Pos()), "not read as tables: "+undec)
+			} else {
+				c.R.Check(bad == "", "R04.10", "the id -> rune step around the surrogate range is exact and is undone by the rune -> id step", p.Pos(fwd.Pos()),
+					fmt.Sprintf("%d boundary ids evaluated by constant propagation: no surrogate, strictly increasing, round trip exact", len(points)), bad)
+			}
+		}
+	}
 	c.R.Count("R04.6:token id operations", n)
 	if bad == 0 {
 		c.R.OK("R04.6", "token ids are only compared for equality, used as map keys, or converted to diff runes", "-", fmt.Sprintf("%d operations on tokenID values inspected", n))
